@@ -213,10 +213,10 @@ class _Continue(Exception):
 
 
 class Raised(Exception):
-    """`raise X(...)` statement of the analysed code"""
+    """`raise X(...)` statement of the analysed code (module: where the class name is to be resolved)"""
 
-    def __init__(self, cls_name, text, node):
-        self.cls_name, self.text, self.node = cls_name, text, node
+    def __init__(self, cls_name, text, node, module=None):
+        self.cls_name, self.text, self.node, self.module = cls_name, text, node, module
 
 
 STR_METHODS = {"upper", "lower", "startswith", "endswith", "count", "strip", "lstrip", "rstrip", "replace",
@@ -395,18 +395,29 @@ class Interp:
                 name = st.exc.func.id
             elif isinstance(st.exc, ast.Name):
                 name = st.exc.id
+            if st.exc is None:
+                # bare `raise` inside a handler: the exception being handled goes on
+                stack = self.__dict__.get("_handling") or []
+                if stack:
+                    raise stack[-1]
+                raise PyRaise(RuntimeError("No active exception to reraise"))
             if name in PY_EXC:
                 raise PyRaise(PY_EXC[name](ast.unparse(st.exc)[:80]))
-            raise Raised(name, ast.unparse(st)[:120], st)
+            raise Raised(name, ast.unparse(st)[:120], st, env.get("__module__"))
         elif isinstance(st, ast.Try):
             try:
                 self.block(st.body, env)
-            except PyRaise as pr:
+            except (PyRaise, Raised) as pr:
                 for h in st.handlers:
-                    if self._handler_matches(h, pr.exc, env):
+                    if (self._handler_matches(h, pr.exc, env) if isinstance(pr, PyRaise) else self._handler_matches_pkg(h, pr, env)):
                         if h.name:
-                            env[h.name] = pr.exc
-                        self.block(h.body, env)
+                            env[h.name] = pr.exc if isinstance(pr, PyRaise) else pr
+                        stack = self.__dict__.setdefault("_handling", [])
+                        stack.append(pr)
+                        try:
+                            self.block(h.body, env)
+                        finally:
+                            stack.pop()
                         break
                 else:
                     raise
@@ -440,6 +451,31 @@ class Interp:
         names = [h.type] if not isinstance(h.type, ast.Tuple) else h.type.elts
         for n in names:
             if isinstance(n, ast.Name) and n.id in PY_EXC and isinstance(exc, PY_EXC[n.id]):
+                return True
+        return False
+
+    def _pkg_class(self, module, name):
+        try:
+            r = self.model.resolve_symbol(module, name) if module is not None else None
+        except Exception:
+            r = None
+        return r[1] if r and r[0] == "class" else None
+
+    def _handler_matches_pkg(self, h, raised, env):
+        """does `except <h.type>` catch an exception class of the package (by the class hierarchy read from the source)"""
+        if h.type is None:
+            return True
+        names = [h.type] if not isinstance(h.type, ast.Tuple) else h.type.elts
+        rkey = self._pkg_class(raised.module, raised.cls_name)
+        mro = list(self.model.mro(rkey)) if rkey is not None else []
+        for n in names:
+            nm = n.id if isinstance(n, ast.Name) else (n.attr if isinstance(n, ast.Attribute) else None)
+            if nm in ("Exception", "BaseException"):
+                return True
+            hkey = self._pkg_class(env.get("__module__"), nm) if nm else None
+            if hkey is not None and (hkey in mro or hkey == rkey):
+                return True
+            if hkey is None and rkey is None and nm == raised.cls_name:
                 return True
         return False
 
